@@ -40,3 +40,4 @@ FIELD_INVARIANTS["space_dimension"] = lambda z: z >= 0
 fields("MultiVariable", _children="list[Variable]")
 fields("Bee", trials="int")
 fields("Bat", loudness="float", pulse_rate="float", velocity="list[val]")
+fields("ContinuousMultiVariable", lower_bounds="list[float]", upper_bounds="list[float]")
